@@ -347,8 +347,8 @@ class AnsiString:
         start = self._slice_val_to_idx(start, 0)
         end = self._slice_val_to_idx(end, len(self._s))
 
-        if not settings and not isinstance(settings, int):
-            # Ignore - nothing to apply (the integer 0 is a setting, not an empty list)
+        if settings is None or (isinstance(settings, (str, list, tuple)) and not settings):
+            # Ignore - nothing to apply (only an empty list or string is "nothing": 0 is a setting, 0.0 a type error)
             return
 
         # (the settings are checked even when there is nothing to format: a bad setting is always an error)
@@ -410,8 +410,8 @@ class AnsiString:
         start = self._slice_val_to_idx(start, 0)
         end = self._slice_val_to_idx(end, len(self._s))
 
-        if settings is not None and not settings and not isinstance(settings, int):
-            # Ignore - nothing to remove
+        if isinstance(settings, (str, list, tuple)) and not settings:
+            # Ignore - nothing to remove (only an empty list or string is "nothing")
             return
 
         # (the settings are checked first: a bad setting is always an error and leaves this object untouched)
@@ -520,6 +520,9 @@ class AnsiString:
         if not regex:
             matchspec = re.escape(matchspec)
 
+        # (the settings are checked even when nothing matches: a bad setting is always an error)
+        _AnsiSettingPoint._scrub_ansi_settings(format)
+
         for match in re.finditer(matchspec, self._s, re.IGNORECASE if not match_case else 0):
             if count < 0 or count > 0:
                 self.apply_formatting_for_match(format, match)
@@ -550,6 +553,9 @@ class AnsiString:
 
         if not format or None in format:
             format = None
+        else:
+            # (the settings are checked even when nothing matches: a bad setting is always an error)
+            _AnsiSettingPoint._scrub_ansi_settings(format)
 
         for match in re.finditer(matchspec, self._s, re.IGNORECASE if not match_case else 0):
             if count < 0 or count > 0:
@@ -1393,11 +1399,12 @@ class AnsiString:
         start = self._slice_val_to_idx(start, 0)
         end = self._slice_val_to_idx(end, len(self._s))
 
+        # (the settings are checked first: a bad setting is always an error)
+        ansi_settings = _AnsiSettingPoint._scrub_ansi_settings(settings)
+
         # Check for invalid start/end
         if end < start:
             return (None, None)
-
-        ansi_settings = _AnsiSettingPoint._scrub_ansi_settings(settings)
 
         # If no settings are provided, then just return given start and end
         if not ansi_settings:
